@@ -24,7 +24,7 @@ type Ty struct {
 	Len    int64   `json:"len,omitempty"`
 	Dir    int     `json:"dir,omitempty"` // chan: 0 bidirectional, 1 send-only, 2 receive-only
 	Fields []Field `json:"f,omitempty"`
-	Src    string  `json:"src,omitempty"` // struct: take the compiled/loaded literal type  <pkg>.<Type>.<Field>  instead of constructing it
+	Src    string  `json:"src,omitempty"`   // struct: take the compiled/loaded literal type  <pkg>.<Type>.<Field>  instead of constructing it
 	Loose  bool    `json:"loose,omitempty"` // any: present as interface{} (types.NewInterfaceType) instead of the alias any
 }
 
@@ -370,8 +370,8 @@ func (t *Ty) coq() string {
 
 // ---- presentation as reflect.Type ----
 
-var rtypes = map[string]reflect.Type{}   // named types compiled into the harness, by Key()
-var rsrc = map[string]reflect.Type{}     // struct literal types compiled into the fixture packages, by Src
+var rtypes = map[string]reflect.Type{} // named types compiled into the harness, by Key()
+var rsrc = map[string]reflect.Type{}   // struct literal types compiled into the fixture packages, by Src
 
 func reg(t reflect.Type) { rtypes[t.PkgPath()+"."+t.Name()] = t }
 
